@@ -23,6 +23,9 @@ column_expression, the SQL-level pair).  A value that went through 0 or 2 layers
 visible in the value itself; per-hook call counters must equal the number of values bound
 / cells fetched.  Contexts: the ones above plus literal() of the decorated type, WHERE
 comparison and IN (bind side), INSERT..FROM SELECT (no Python processing), UPDATE SET,
+keyword-form ``text("SELECT * ..").columns(name=type)`` (name-matched result columns) executed
+repeatedly as one statement object and as equal fresh statements while the table / view
+underneath is re-created with another column order,
 text().columns, func/case results typed by the decorator, ORM loads incl. Bundle and
 aliased subquery entities, repeated access to the same Row (no re-processing).
 
@@ -58,7 +61,8 @@ META = {
     "soft_s": {"quick": 50, "thorough": 800},
     "exhaustive": {"quick": False, "thorough": False},
     "require": ["cells_compared", "boundary_cells", "tag_cells_checked", "bind_hook_calls", "result_hook_calls",
-                "returning_cells", "orm_cells", "processor_pairs_checked", "sqltag_cells_checked"],
+                "returning_cells", "orm_cells", "processor_pairs_checked", "sqltag_cells_checked",
+                "name_matched_executions"],
     "assumptions": ["type-specific comparators encode only documented precision limits (see Guards)"],
 }
 
@@ -733,10 +737,76 @@ def part_b(ctx, sa, orm, engine_factory):
                     ctx.violation("tag-layers-via-delete_returning", f"{res[:3]}", {})
             # ---- SQL-level pair: bind_expression / column_expression
             sql_tag_part(ctx, sa, orm, eng, q, qcls, rng, rnd)
+            # ---- name-matched result columns under a changing cursor column order
+            name_matched_part(ctx, sa, eng, Tag, ITag, calls, rng, rnd)
             md.drop_all(eng)
             eng.dispose()
     finally:
         reg.dispose()
+
+
+def name_matched_part(ctx, sa, eng, Tag, ITag, calls, rng, rnd):
+    """``text("SELECT * ...").columns(name=type, ...)`` (keyword form: result columns are matched
+    to the cursor by *name*) executed repeatedly - as one statement object and as freshly built,
+    equal statements - while the cursor's column order changes underneath (table re-created
+    with another column order, view redefined).  Every execution must apply each decorator
+    exactly once to the column of that name."""
+    names = ["id", "tag", "plain", "itag", "other"]
+    sqltype = {"id": "INTEGER", "tag": "VARCHAR", "plain": "VARCHAR", "itag": "INTEGER", "other": "VARCHAR"}
+    tbl = sa.Table("nm", sa.MetaData(), sa.Column("id", sa.Integer), sa.Column("tag", Tag()), sa.Column("plain", sa.String),
+                   sa.Column("itag", ITag()), sa.Column("other", sa.String))
+
+    def mk(src):
+        return sa.text(f"SELECT * FROM {src}").columns(tag=Tag(), itag=ITag(), plain=sa.String(), id=sa.Integer(),
+                                                       other=sa.String())
+
+    fixed = {"nm": mk("nm"), "nmv": mk("nmv")}
+    for step in range(4):
+        order = list(names)
+        vorder = list(names)
+        if step:
+            rng.shuffle(order)
+            rng.shuffle(vorder)
+        vals = [f"n{ctx.shard}.{rnd}.{step}.{i}" for i in range(3)]
+        with eng.begin() as c:
+            c.exec_driver_sql("DROP VIEW IF EXISTS nmv")
+            c.exec_driver_sql("DROP TABLE IF EXISTS nm")
+            c.exec_driver_sql("CREATE TABLE nm (%s)" % ", ".join(f"{n} {sqltype[n]}" for n in order))
+            c.exec_driver_sql("CREATE VIEW nmv AS SELECT %s FROM nm" % ", ".join(vorder))
+            c.execute(sa.insert(tbl), [{"id": i, "tag": v, "plain": v, "itag": i, "other": "o" + v} for i, v in enumerate(vals)])
+        with eng.connect() as c:
+            for src, cursor_order in (("nm", order), ("nmv", vorder)):
+                for stmt_kind in ("same_object", "fresh_equal", "fresh_equal"):
+                    stmt = fixed[src] if stmt_kind == "same_object" else mk(src)
+                    n0 = len(calls["result"])
+                    rows = c.execute(stmt).all()
+                    rc = calls["result"][n0:]
+                    ctx.count("result_hook_calls", len(rc))
+                    ctx.count("name_matched_executions")
+                    d = {"source": src, "step": step, "cursor_order": cursor_order, "stmt": stmt_kind}
+                    if len(rc) != 2 * len(rows) or len(rows) != len(vals):
+                        ctx.violation("result-hook-call-count", f"{len(rc)} result hook calls for {len(rows)} rows x 2 hooks "
+                                      f"(name-matched text columns, {d})", d)
+                    for r in rows:
+                        m = r._mapping
+                        i = m["id"]
+                        ctx.count("tag_cells_checked", 4)
+                        want = {"tag": f"R[B[{vals[i]}]]" if isinstance(i, int) and 0 <= i < len(vals) else None,
+                                "plain": vals[i] if isinstance(i, int) and 0 <= i < len(vals) else None,
+                                "itag": (i * 10 + 1) * 10 + 2 if isinstance(i, int) else None,
+                                "other": "o" + vals[i] if isinstance(i, int) and 0 <= i < len(vals) else None}
+                        got = {k2: m[k2] for k2 in want}
+                        attr = {"tag": r.tag, "plain": r.plain, "itag": r.itag, "other": r.other}
+                        if got != want or attr != want:
+                            ctx.violation("name-matched-columns-processing-on-wrong-column",
+                                          f"text('SELECT * FROM {src}').columns(tag=Tag, itag=ITag, ...) execution "
+                                          f"({stmt_kind}) with cursor order {cursor_order}: got {got} expected {want}", d)
+                            break
+            ctx.case({"part": "B-name-matched", "step": step, "shard": ctx.shard}, nontrivial=step > 0)
+    with eng.begin() as c:
+        c.exec_driver_sql("DROP VIEW IF EXISTS nmv")
+        c.exec_driver_sql("DROP TABLE IF EXISTS nm")
+    ctx.seen("tag_context", "text_columns_by_name_reordered")
 
 
 def sql_tag_part(ctx, sa, orm, eng, q, qcls, rng, rnd):
